@@ -178,7 +178,7 @@ func checkC10(t *testing.T, c *c10Case, rec *Recorder) []Diff {
 	}
 	// only growth is a leak (a finalizer of an earlier case may close a descriptor in between)
 	if o.FdBefore >= 0 && o.FdAfter > o.FdBefore {
-		add("fd-leak", "%d file descriptors before, %d after (faults %+v); open now: %s", o.FdBefore, o.FdAfter, sc.Faults, o.FdList)
+		add("fd-leak", "%d socket descriptors before, %d after (faults %+v); open now: %s", o.FdBefore, o.FdAfter, sc.Faults, o.FdList)
 	}
 	rec.Case(scenarioKey(sc), nt, map[string]any{"variant": sc.Variant, "faults": sc.Faults, "err": fmt.Sprint(o.Err)}, labels...)
 	return ds
@@ -323,7 +323,7 @@ func TestC10Paths(t *testing.T) {
 			add("goroutine-leak", "path %s: %d goroutines before the call, %d after it returned", c.Path, o.GorBefore, o.GorAfter)
 		}
 		if o.FdBefore >= 0 && o.FdAfter > o.FdBefore {
-			add("fd-leak", "path %s: %d file descriptors before, %d after; open now: %s", c.Path, o.FdBefore, o.FdAfter, o.FdList)
+			add("fd-leak", "path %s: %d socket descriptors before, %d after; open now: %s", c.Path, o.FdBefore, o.FdAfter, o.FdList)
 		}
 		return ds
 	})
